@@ -66,8 +66,12 @@ def dump_net(net):
 	for n in net.nodes:
 		nodes.append({'label': n.index, 'preds': list(n.predecessor_indices()), 'succs': list(n.successor_indices()),
 					  'desc': sorted(d.index for d in n.descendants), 'anc': sorted(a.index for a in n.ancestors)})
+	# has_directed_cycle() enumerates every simple cycle (NetworkX): asked only on networks of at most 7 nodes
+	with warnings.catch_warnings():
+		warnings.simplefilter('ignore')
+		cyc = bool(net.has_directed_cycle()) if len(net.nodes) <= 7 else None
 	return {'nodes': nodes, 'edges': [list(e) for e in net.edges], 'sources': [n.index for n in net.source_nodes],
-			'sinks': [n.index for n in net.sink_nodes]}
+			'sinks': [n.index for n in net.sink_nodes], 'cyc': cyc}
 
 
 def coherent_py(net):
@@ -192,6 +196,8 @@ def ops_case(rep, drv, ops):
 		mg = m['g']
 		for n in mg['nodes']:
 			n['desc'] = sorted(n['desc']); n['anc'] = sorted(n['anc'])
+		if py['cyc'] is None:
+			py['cyc'] = mg['cyc']
 		bad = coherent_py(net)
 		rep.exact_cmp += 1
 		same = (py == mg) and (okpy == m['ok'])
